@@ -890,6 +890,192 @@ def fam_options(arg):
 
 
 # ----------------------------------------------------------------------------------------------------------------
+# Family reach: the same failing call reached by name, through an alias, a parameter, systemPartial, a callback position
+# ----------------------------------------------------------------------------------------------------------------
+
+def host_parser_fail(args, options):  # pylint: disable=unused-argument
+    bs = impl()[0]
+    raise bs.BareScriptParserError('Syntax error', 'x', 1, 1)
+
+
+def host_runtime_fail(args, options):  # pylint: disable=unused-argument
+    bs = impl()[0]
+    raise bs.BareScriptRuntimeError('host says no')
+
+
+# (target function, argument expressions over the globals below, failure kind)
+REACH_TARGETS = [
+    ('arrayGet', ['null', 'n0'], 'ValueArgsError'),
+    ('stringIndexOf', ['n1', "'a'"], 'ValueArgsError'),
+    ('arrayLength', ['n1'], 'ValueArgsError'),
+    ('objectGet', ['null', "'a'", "'dflt'"], 'ValueArgsError'),
+    ('objectHas', ['n1', "'a'"], 'ValueArgsError'),
+    ('arrayPop', ['empty'], 'ValueArgsError'),
+    ('schemaParse', ['n1'], 'TypeError in the body'),
+    ('dataSort', ['nums', 'sorts'], 'AttributeError in the body'),
+    ('jsonParse', ["'{'"], 'ValueError in the body'),
+    ('jsonStringify', ['selfarr'], 'ValueError in the body'),
+    ('dataFilter', ['rows', "'a +'"], 'BareScriptParserError'),
+    ('dataCalculatedField', ['rows', "'b'", "'a +'"], 'BareScriptParserError'),
+    ('dataJoin', ['rows', 'rows', "'a +'"], 'BareScriptParserError'),
+    ('dataJoin', ['rows', 'rows', "'a'", "'(a'"], 'BareScriptParserError'),
+    ('dataFilter', ['rows', "'nosuch(a)'"], 'BareScriptRuntimeError (documented)'),
+    ('hostFail', ['n1'], 'host KeyError'),
+    ('hostParserFail', ['n1'], 'host BareScriptParserError'),
+    ('hostRuntimeFail', ['n1'], 'BareScriptRuntimeError (documented)'),
+    ('arrayLength', ['rows'], 'succeeds'),
+    ('dataFilter', ['rows', "'a > 1'"], 'succeeds'),
+]
+REACHES = ['name', 'alias', 'parameter', 'nested parameter', 'partial', 'partial all', 'indexOf callback', 'sort callback']
+BAD_INCLUDE_REACHES = ['name', 'alias', 'parameter', 'nested function', 'statement in a loop in a function']
+
+
+def reach_globals():
+    return {'n0': 0, 'n1': 1, 'empty': [], 'nums': [1, 2], 'sorts': [['a']], 'rows': [{'a': 1}, {'a': 2}], 'selfarr': selfarr(),
+            'hostFail': cb_raise, 'hostParserFail': host_parser_fail, 'hostRuntimeFail': host_runtime_fail}
+
+
+def reach_source(t, r):
+    """Script text (or None when the reach does not fit the signature)."""
+    name, args, _ = REACH_TARGETS[t]
+    n = len(args)
+    alist = ', '.join(args)
+    tail = f"systemLog('{SENTINEL}')\nreturn rr\n"
+    reach = REACHES[r]
+    if reach == 'name':
+        return f'rr = {name}({alist})\n' + tail
+    if reach == 'alias':
+        return f'ff = {name}\nrr = ff({alist})\n' + tail
+    params = ', '.join(f'p{i}' for i in range(n))
+    if reach == 'parameter':
+        return f'function callIt(fn, {params}):\n    return fn({params})\nendfunction\nrr = callIt({name}, {alist})\n' + tail
+    if reach == 'nested parameter':
+        return (f'function inner(fn, {params}):\n    zz = fn({params})\n    return zz\nendfunction\n'
+                f'function outer(fn, {params}):\n    return inner(fn, {params})\nendfunction\nrr = outer({name}, {alist})\n' + tail)
+    if reach == 'partial':
+        if n < 2:
+            return None
+        return f'pp = systemPartial({name}, {args[0]})\nrr = pp({", ".join(args[1:])})\n' + tail
+    if reach == 'partial all':
+        return f'pp = systemPartial({name}, {alist})\nrr = pp()\n' + tail
+    if reach == 'indexOf callback':
+        cb = name if n == 1 else f'systemPartial({name}, {", ".join(args[:-1])})'
+        return f'rr = arrayIndexOf(arrayNew({args[-1]}), {cb})\n' + tail
+    if n != 2:
+        return None
+    # the comparison function receives the two elements in an order that is the sort algorithm's business: used only for
+    # targets that fail for both orders of their two arguments (check_reach prunes the others)
+    return f'rr = arraySort(arrayNew({args[0]}, {args[1]}), {name})\n' + tail
+
+
+def check_reach(case, acc):
+    bs, funcs = impl()
+    if case['kind'] == 'include':
+        # A bad include inside a SCRIPT function is a documented exception and must come out as BareScriptParserError
+        reach = BAD_INCLUDE_REACHES[case['r']]
+        body = "function ff(aa):\n    include 'bad.bare'\n    return 1\nendfunction\n"
+        call = {'name': 'rr = ff(1)', 'alias': 'gg = ff\nrr = gg(1)',
+                'parameter': 'function callIt(fn):\n    return fn(1)\nendfunction\nrr = callIt(ff)',
+                'nested function': 'function outer(aa):\n    zz = ff(aa)\n    return zz\nendfunction\nrr = outer(1)',
+                'statement in a loop in a function': 'function outer(aa):\n    for xx in arrayNew(1, 2):\n        zz = ff(xx)\n    endfor\n    return zz\nendfunction\nrr = outer(1)'}[reach]
+        source = body + call + '\nreturn rr\n'
+        logs = []
+        out = run_guarded(lambda: bs.execute_script(bs.parse_script(source), {'globals': {}, 'fetchFn': lambda request: 'x = (1 +', 'debug': True, 'logFn': logs.append,
+                                                                                 'maxStatements': 1000}))
+        acc.evals += 1
+        case = dict(case, source=source)
+        if out[:2] != ('doc', 'BareScriptParserError'):
+            acc.violation(case, 'BareScriptParserError (bad include inside a script function)', f'{out[0]} {label_of(out[1])}',
+                          f'bad include inside a script function reached by {reach}: the documented parser error does not come out')
+            return 'violation'
+        return 'doc:BareScriptParserError'
+    t, r = case['t'], case['r']
+    name, args, kind = REACH_TARGETS[t]
+    source = reach_source(t, r)
+    if source is None:
+        acc.pruned += 1
+        return 'does not fit'
+    case = dict(case, source=source, target=f'{name}({", ".join(args)})', reach=REACHES[r], failure=kind)
+    what = f'{name}({", ".join(args)}) [{kind}] reached by {REACHES[r]}'
+    # independent knowledge: the direct call of the function object
+    g2 = reach_globals()
+    lib = dict(funcs)
+    lib.update(g2)
+    vals = [bs.evaluate_expression(bs.parse_expression(a), {'globals': g2}) for a in args]
+    direct = run_guarded(lambda: lib[name](vals, {'globals': dict(lib), 'statementCount': 0}))
+    failed = direct[0] == 'host-exc' or (direct[0] == 'doc' and direct[1] != 'BareScriptRuntimeError')
+    raises_runtime = direct[0] == 'doc' and direct[1] == 'BareScriptRuntimeError'
+    if REACHES[r] == 'sort callback':
+        g3 = reach_globals()
+        lib3 = dict(funcs)
+        lib3.update(g3)
+        vals3 = [bs.evaluate_expression(bs.parse_expression(a), {'globals': g3}) for a in args][::-1]
+        swapped = run_guarded(lambda: lib3[name](vals3, {'globals': dict(lib3), 'statementCount': 0}))
+        swapped_failed = swapped[0] == 'host-exc' or (swapped[0] == 'doc' and swapped[1] != 'BareScriptRuntimeError')
+        if not (failed and swapped_failed):
+            acc.pruned += 1
+            return 'does not fit'
+    logs = []
+    g = reach_globals()
+    out = run_guarded(lambda: bs.execute_script(bs.parse_script(source), {'globals': g, 'debug': True, 'logFn': logs.append, 'maxStatements': 1000}))
+    acc.evals += 2
+    if not check_outcome(out, case, acc, what):
+        return 'violation'
+    if raises_runtime:
+        if out[:2] != ('doc', 'BareScriptRuntimeError'):
+            acc.violation(case, 'BareScriptRuntimeError (documented, re-raised)', f'{out[0]} {label_of(out[1])}', f'{what}: the runtime error is not re-raised')
+            return 'violation'
+        return 'doc:BareScriptRuntimeError'
+    if out[0] != 'value':
+        acc.violation(case, 'a value (the failure is contained)', f'{out[1]} raised', f'{what}: {out[1]} escapes although the failing function is a library/host function')
+        return 'violation'
+    if not logs or logs[-1] != SENTINEL:
+        acc.violation(case, f'the statement after the call runs (logs end with {SENTINEL!r})', [str(x)[:80] for x in logs[-3:]], f'{what}: execution did not continue')
+        return 'violation'
+    nfail = sum(1 for line in logs if isinstance(line, str) and line.startswith('BareScript: Function "') and ' failed with error: ' in line)
+    callback = REACHES[r] in ('indexOf callback', 'sort callback')
+    if not failed:
+        if nfail:
+            acc.violation(case, 'no failure line (the call succeeds)', f'{nfail} line(s)', f'{what}: a successful call was reported as failed')
+            return 'violation'
+        return 'ok:' + value_kind(out[1])
+    acc.nontrivial += 1
+    if nfail != 1:
+        acc.violation(case, 'exactly one failure line in debug mode', f'{nfail} line(s)', f'{what}: the failed call was reported {nfail} times')
+        return 'violation'
+    allowed = [None, FAIL_VALUES.get(name)]
+    if name == 'objectGet':
+        allowed.append('dflt')
+    if callback:
+        allowed.append(-1 if REACHES[r] == 'indexOf callback' else None)
+    res = out[1]
+    if not any((res is a) if (a is None or isinstance(a, bool)) else (not isinstance(res, bool) and same_value(res, a)) for a in allowed):
+        acc.violation(case, f'null or a documented failure value {allowed[1:]!r}', f'{value_kind(res)} {label_of(res)}',
+                      f'{what}: the failed call evaluated to something other than a failure value')
+        return 'violation'
+    return 'failed:' + direct[1]
+
+
+def reach_cases():
+    cases = [{'kind': 'call', 't': t, 'r': r} for t in range(len(REACH_TARGETS)) for r in range(len(REACHES))]
+    cases += [{'kind': 'include', 'r': r} for r in range(len(BAD_INCLUDE_REACHES))]
+    return cases
+
+
+def fam_reach(arg):
+    acc = Acc('reach')
+    for case in arg:
+        acc.cases += 1
+        kind = check_reach(case, acc)
+        acc.outcome((case.get('t'), case['r'], kind))
+        if case['kind'] == 'include':
+            acc.nontrivial += 1
+        if case.get('t') in (10, 15) and case['r'] in (2, 4):
+            acc.sample({'source': reach_source(case['t'], case['r']), 'outcome': kind})
+    return acc.result()
+
+
+# ----------------------------------------------------------------------------------------------------------------
 # Family pow_int (guarded)
 # ----------------------------------------------------------------------------------------------------------------
 
@@ -1083,6 +1269,11 @@ def families(tier):
                f'{len(option_calls())} calls (every library function with () and (null) + {len(CURATED_CALLS)} curated: failing/succeeding host and script '
                f'functions, non-function in call position, nested failures) x execute_script/evaluate_expression x 3 debug x 3 logFn settings, + '
                f'{len(bare_calls())} built-in expression calls x options None / {{}}', expected=len(option_calls()) * 18 + len(bare_calls()) * 2),
+        Family('reach', fam_reach, split(reach_cases(), 16),
+               f'{len(REACH_TARGETS)} calls (one or more per failure kind: ValueArgsError, host exception in the body, BareScriptParserError from an '
+               f'expression argument, failing host functions, re-raised runtime error, two that succeed) x {len(REACHES)} ways of reaching the function '
+               f'(by name, alias variable, parameter, nested parameter, systemPartial, callback of arrayIndexOf / arraySort) + a bad include inside a '
+               f'script function x {len(BAD_INCLUDE_REACHES)} reaches', expected=len(REACH_TARGETS) * len(REACHES) + len(BAD_INCLUDE_REACHES)),
         Family('pow_int', fam_pow_int, [[c] for c in pows], f'{len(pows)} int ** int cases with astronomically large exact result (the pairs the family ops '
                f'delegates, x {len(CONTEXTS)} contexts, + 1 pure script), each in a forked child under a {POW_CPU_S} s CPU / {POW_MEM >> 20} MiB guard',
                expected=len(pows)),
@@ -1093,12 +1284,12 @@ def families(tier):
 
 
 _CHECKS = {'ops': check_ops, 'lib': check_lib, 'programs': check_programs, 'models': check_models, 'pow_int': check_pow_int, 'growth': check_growth, 'chains': check_chains,
-           'options': check_options}
+           'options': check_options, 'reach': check_reach}
 
 
 def replay(family, case):
     acc = Acc(family)
-    case = {k: v for k, v in case.items() if k not in ('labels', 'source', 'label', 'template', 'options', 'text')}
+    case = {k: v for k, v in case.items() if k not in ('labels', 'source', 'label', 'template', 'options', 'text', 'target', 'reach', 'failure')}
     _CHECKS[family](case, acc)
     res = acc.result()
     return {'differs': bool(res['nviol'] or res['nknown']), 'violations': res['violations'] + res['known_violations']}
